@@ -14,6 +14,7 @@ CONSTANTS
   PeerFaults = {}
   DeadlineBeforeLock = FALSE
   NoGuard = TRUE
+  GuardPerClient = FALSE
   RearmPerRead = FALSE
   NoCloseOnError = FALSE
 VIEW View
